@@ -169,6 +169,13 @@ struct Exec {
         if (a.exp_rc != NC_NOERR) n = std::max<long long>(acc_nelems(a), 0);
         if (n < 0 || n > (1 << 22)) n = 0;
         ub = make_buf(a, n);
+        // flexible API with buftype MPI_DATATYPE_NULL ("the buffer holds data of the variable's own type"; bufcount is then documented as ignored): taken for a third of the
+        // flexible requests whose memory type is the variable's native type and whose buffer is contiguous from its start
+        if (a.flexible && (a.bufkind == 0 || a.bufkind == 2) && a.form != F_VARD && (opi + r) % 3 == 0 && a.invalid == INV_NONE) {
+            nc_type xt = NC_NAT; if (ncmpi_inq_vartype(ncid, varid, &xt) == NC_NOERR && native_memtype(xt) == a.memtype) {
+                free_buf(*ub); ub->btype = MPI_DATATYPE_NULL; ub->own_type = false; ub->bufcount = (opi % 3 == 0) ? 0 : (opi % 3 == 1) ? -1 : ub->span + 5; c.res->probes["buftype_null_calls"]++;
+            }
+        }
         bool is_put = (kind == K_PUT || kind == K_IPUT || kind == K_BPUT);
         if (is_put) for (long long k = 0; k < n && k < (long long)a.values.size(); k++) write_mem((char *)ub->ptr() + ub->pos[(size_t)k], a.memtype, a.values[(size_t)k]);
         ub->orig = ub->mem;
